@@ -379,3 +379,28 @@ def conditioning(V, offset=None):
     thin = 2 * math.sqrt(float(ev.min())) if len(ev) else 1.0
     off = float(np.linalg.norm(V.mean(0))) if offset is None else float(offset)
     return max(1.0, off / thin / 1000.0)
+
+
+def face_area_forms(p, all_areas):
+    """get_face_area has several call forms (None / one index / a sequence of indices; ConvexPolyhedron also "total"): they must select
+    from the per-face list.  Returns a list of problems (empty when consistent).  The sequence is a reversed, strided selection, so that a
+    slip that returns a prefix or ignores the requested indices shows."""
+    import numpy as np
+    probs = []
+    n = len(all_areas)
+    sel = list(range(n - 1, -1, -2)) or [0]
+    try:
+        got = np.asarray(p.get_face_area(sel), float)
+        if got.shape != (len(sel),) or not np.allclose(got, np.asarray(all_areas, float)[sel], rtol=1e-12, atol=0):
+            probs.append("get_face_area(%s) returned %s, the listed faces have areas %s" % (sel[:6], got[:6].tolist(), np.asarray(all_areas, float)[sel][:6].tolist()))
+        k = n // 2
+        one = np.asarray(p.get_face_area(k), float).ravel()
+        if one.size != 1 or not np.isclose(one[0], all_areas[k], rtol=1e-12, atol=0):
+            probs.append("get_face_area(%d) returned %s, face %d has area %r" % (k, one.tolist(), k, float(all_areas[k])))
+        if type(p).__name__ == "ConvexPolyhedron":       # (the "total" form exists only there; surface_area uses it)
+            tot = float(p.get_face_area("total"))
+            if not np.isclose(tot, float(np.sum(all_areas)), rtol=1e-12, atol=0):
+                probs.append("get_face_area('total') = %r, the faces sum to %r" % (tot, float(np.sum(all_areas))))
+    except Exception as e:  # noqa: BLE001
+        probs.append("get_face_area call form raised %s" % type(e).__name__)
+    return probs
